@@ -15,7 +15,14 @@ DOC = {   # the conversion the module documents (and the property states), over 
     'tau': '4.0 * asol * clight * opac * time / alpha',
     'epsilon': '4.0 * asol / alpha',
     'ener_in': 'asol * (trad_bc_ev / kev) ** 4',
+    # ... and back: E_rad = u*E_in, a*T_rad^4 = u*E_in, a*T_mat^4 = v*E_in (no other constant enters)
+    'erad': 'uans * ener_in',
+    'trad': '(uans * ener_in / asol) ** 0.25',
+    'trad_ev': 'kev * (uans * ener_in / asol) ** 0.25',
+    'tmat': '(vans * ener_in / asol) ** 0.25',
+    'tmat_ev': 'kev * (vans * ener_in / asol) ** 0.25',
 }
+SOLUTIONS = ('uans', 'vans')     # the dimensionless solutions: opaque atoms of the conversion
 
 
 def conversion(model, b, fi, res):
@@ -28,7 +35,7 @@ def conversion(model, b, fi, res):
     for func, tnode, vnode in b.assign_log:
         if func is fi:
             vals[tnode.id] = vnode
-    need = set(DOC) | {'rt3', 'asol', 'clight', 'kev'}
+    need = set(DOC) | {'rt3', 'asol', 'clight', 'kev'} | set(SOLUTIONS)
     if need - set(vals):
         raise AnalysisError('so_wave locals %s vanished' % sorted(need - set(vals)))
     ev = NFEval([])
@@ -39,6 +46,9 @@ def conversion(model, b, fi, res):
             ev.memo[vals[nm].nid] = ev.atom('const:' + nm)
             env[nm] = ev.atom('const:' + nm)
     env['asol'] = ev.nf(vals['asol'])
+    for nm in SOLUTIONS:
+        ev.memo[vals[nm].nid] = ev.atom('solution:' + nm)
+        env[nm] = ev.atom('solution:' + nm)
     for a in fi.node.args.args:
         env[a.arg] = ev.atom('input:' + a.arg)
     for nm, formula in DOC.items():
@@ -46,6 +56,8 @@ def conversion(model, b, fi, res):
         res.evaluations += 1
         res.nontrivial += 1
         got = ev.nf(vals[nm])
+        if nm == 'ener_in':
+            env['ener_in'] = got
         want = expr_nf(ev, formula, env)
         if got is not NAN and want is not NAN and ev.equal(got, want):
             res.discharged += 1
